@@ -167,7 +167,7 @@ private:
 
   CPPToken get_number(int c);
   int scan_escape_sequence(int c);
-  std::string scan_quoted(int c);
+  std::string scan_quoted(int c, int *first_char = nullptr);
   std::string scan_raw(int c);
 
   bool should_ignore_manifest(const CPPManifest *manifest) const;
